@@ -14,6 +14,7 @@ import (
 type replay struct {
 	Model  map[string]uint64 `json:"model"`
 	Params map[string]string `json:"params"`
+	Events []string          `json:"events"`
 }
 
 var (
